@@ -30,11 +30,10 @@ func New(config ...Config) fiber.Handler {
 			}
 		})
 
-		// Continue stack
-		err := c.Next()
-
-		// Encrypt response cookies
-		c.Response().Header.VisitAllCookie(func(key, _ []byte) {
+		// Encrypt response cookies once the stack is done: deferred, so that cookies set by a
+		// handler that panics are encrypted too (a recover middleware registered in front of this
+		// one turns the panic into an error response that still carries the Set-Cookie headers)
+		defer c.Response().Header.VisitAllCookie(func(key, _ []byte) {
 			keyString := string(key)
 			if !isDisabled(keyString, cfg.Except) {
 				cookieValue := fasthttp.Cookie{}
@@ -51,6 +50,7 @@ func New(config ...Config) fiber.Handler {
 			}
 		})
 
-		return err
+		// Continue stack
+		return c.Next()
 	}
 }
